@@ -181,3 +181,35 @@ func zzC35ForgedClientSessionState() {
 	}
 	verifReach("end")
 }
+
+//verif:harness C35 ticket_key_rotation unwind=400
+//verif:stub crypto/sha512.Sum512 zzStubSum512
+//verif:expect end
+//verif:doc A sequence of two Config.SetSessionTicketKeys calls with 1..2 and then 1..2 arbitrary 32-byte keys (SHA-512 uninterpreted): after each call the installed key set is exactly the keys TicketKeyFromBytes derives from that call's list, in order — nothing from the previous list survives a rotation (so a ticket sealed under a key that is no longer configured finds no key to open it), and ticketKeys() hands decryptTicket that same set.
+func zzC35TicketKeyRotation() {
+	cfg := &Config{Time: zzFixedTime}
+	for round := 0; round < 2; round++ {
+		n := 1 + verifChoice("nkeys", 2)
+		keys := make([][32]byte, n)
+		for i := range keys {
+			copy(keys[i][:], verifBytes("key", 32))
+		}
+		cfg.SetSessionTicketKeys(keys)
+		verifAssert(len(cfg.sessionTicketKeys) == n, "rotation-installs-exactly-the-new-list")
+		if len(cfg.sessionTicketKeys) == n {
+			for i := range keys {
+				want := TicketKeyFromBytes(keys[i])
+				got := cfg.sessionTicketKeys[i]
+				verifAssert(zzBytesEq(want.AesKey[:], got.aesKey[:]) && zzBytesEq(want.HmacKey[:], got.hmacKey[:]), "rotation-key-derived-from-new-list")
+			}
+		}
+		used := cfg.ticketKeys(nil)
+		verifAssert(len(used) == n, "decrypt-key-set-is-the-installed-set")
+		if len(used) == n {
+			for i := range used {
+				verifAssert(used[i] == cfg.sessionTicketKeys[i], "decrypt-key-set-is-the-installed-set")
+			}
+		}
+	}
+	verifReach("end")
+}
